@@ -410,6 +410,10 @@ func genCase(t *rapid.T) caseA {
 	}
 	for {
 		c.Spec.Op = rapid.SampledFrom(cat.Names()).Draw(t, "op")
+		if rapid.IntRange(0, 9).Draw(t, "copy_bias") == 0 {
+			// the two operations whose decision is about a second object as well
+			c.Spec.Op = rapid.SampledFrom([]string{"CopyObject", "UploadPartCopy"}).Draw(t, "copy_op")
+		}
 		e := cat.Lookup(c.Spec.Op)
 		if e.Level != "service" && c.Spec.Op != "GetObjectVersion" && c.Spec.Op != "DeleteObjectVersion" {
 			break
@@ -417,7 +421,7 @@ func genCase(t *rapid.T) caseA {
 	}
 	c.Spec.Bucket = rapid.SampledFrom([]string{"A", "A", "A", "A", "A", "B", "L", "new"}).Draw(t, "bucket")
 	c.Spec.Key = "=" + rapid.SampledFrom(objKeys).Draw(t, "key")
-	if rapid.IntRange(0, 2).Draw(t, "src") == 0 {
+	if rapid.IntRange(0, 2).Draw(t, "src") == 0 || c.Spec.Op == "CopyObject" || c.Spec.Op == "UploadPartCopy" {
 		c.Spec.Src = rapid.SampledFrom([]string{"A/obj", "B/secret", "A/nested", "L/locked"}).Draw(t, "src_name")
 		// the same source spelled with a leading slash and / or a version suffix: the decision is about the key
 		if form := rapid.IntRange(0, 4).Draw(t, "src_form"); form > 0 {
